@@ -47,7 +47,7 @@ type verifCase struct {
 	N       int      `json:"n"`
 	Key     string   `json:"key"`
 	BaseMs  int64    `json:"base_ms"`
-	Hard    bool     `json:"hard"`    // outages by Close/Restart instead of error replies
+	Hard    bool     `json:"hard"`    // outages drop the connection (network error, go-redis retries) instead of error replies
 	Wall    bool     `json:"wall"`    // token: wall-clock case (Allow / AllowCtx use time.Now())
 	Groups  []struct {
 		Key   string `json:"key"`
@@ -172,6 +172,13 @@ func (s *verifStore) hook(c *server.Peer, cmd string, args ...string) bool {
 			s.pings++
 			s.mu.Unlock()
 		}
+		if s.hard {
+			// a network failure: the connection is dropped without a reply (the client sees EOF and
+			// retries on fresh connections, which are dropped as well).  The listener stays open: the
+			// port is never released, so nobody else's server can ever answer this case's client.
+			c.Close()
+			return true
+		}
 		c.WriteError("ERR verif outage")
 		return true
 	}
@@ -198,13 +205,9 @@ func (s *verifStore) setDown() {
 		return
 	}
 	s.down = true
-	if s.hard {
-		s.mr.Close()
-	} else {
-		s.mu.Lock()
-		s.hdown = true
-		s.mu.Unlock()
-	}
+	s.mu.Lock()
+	s.hdown = true
+	s.mu.Unlock()
 }
 
 func (s *verifStore) setUp() error {
@@ -212,16 +215,6 @@ func (s *verifStore) setUp() error {
 		return nil
 	}
 	s.down = false
-	if s.hard {
-		if err := s.mr.Restart(); err != nil {
-			return err
-		}
-		s.mu.Lock()
-		s.loaded = false
-		s.mu.Unlock()
-		s.install()
-		return nil
-	}
 	s.mu.Lock()
 	s.hdown = false
 	s.mu.Unlock()
@@ -402,6 +395,7 @@ func verifSync(lims []*TokenLimiter, patience time.Duration) []bool {
 	deadline := time.Now().Add(patience)
 	res := make([]bool, len(lims))
 	for i, l := range lims {
+		polls := 0
 		for {
 			if verifAlive(l) && !verifMonitor(l) {
 				res[i] = true
@@ -410,10 +404,14 @@ func verifSync(lims []*TokenLimiter, patience time.Duration) []bool {
 			if !verifAlive(l) && !verifMonitor(l) {
 				break // dead without a monitor: would never recover
 			}
-			if time.Now().After(deadline) {
+			// the wall clock alone is no measure on a loaded machine (the whole process may have been
+			// off the CPU): the wait also has to have polled often enough for the monitor goroutine
+			// to have been scheduled many times
+			if time.Now().After(deadline) && polls >= 400 {
 				res[i] = verifAlive(l)
 				break
 			}
+			polls++
 			time.Sleep(2 * time.Millisecond)
 		}
 	}
@@ -455,6 +453,7 @@ func verifTokenOnce(c verifCase) (out verifOut) {
 		expect[i] = true
 	}
 	clock := c.BaseMs
+	failedCalls := 0
 	var sec int64
 	if c.Wall {
 		// Allow() / AllowCtx() read time.Now(): the case runs on the wall clock at whole-second
@@ -521,6 +520,14 @@ func verifTokenOnce(c verifCase) (out verifOut) {
 			notRun := st.nSha == 0 || (!loaded && st.nEval == 0)
 			st.mu.Unlock()
 			brk := !(before && !after && !st.down && fault == "" && notRun)
+			if !brk && (failedCalls < 3 || c.Hard) {
+				// cut off by the circuit breaker although fewer than 3 calls failed: it was fed by
+				// monitor pings that failed in real time (outside the model): the run says nothing
+				out.Disturbed = true
+			}
+			if before && !after {
+				failedCalls++
+			}
 			out.Obs = append(out.Obs, []bool{ok, before, after, brk})
 		case "par": // ["par", i, [n1, n2, ...]]: concurrent calls on ONE instance during an outage
 			i := vnum(op[1])
@@ -562,6 +569,9 @@ func verifTokenOnce(c verifCase) (out verifOut) {
 					ok := lims[i].AllowN(time.UnixMilli(clock), int(vnum(v)))
 					res[k] = []bool{ok, b, verifAlive(lims[i]), true}
 				}
+			}
+			if before && !verifAlive(lims[i]) {
+				failedCalls += len(sizes)
 			}
 			expect[i] = verifAlive(lims[i])
 			out.Obs = append(out.Obs, map[string]any{"par": res, "gated": before && st.down && !st.hard})
@@ -610,7 +620,7 @@ func verifTokenOnce(c verifCase) (out verifOut) {
 	st.mu.Lock()
 	pings := st.pings
 	st.mu.Unlock()
-	if !c.Breaker && pings > 1 {
+	if !c.Breaker && !c.Hard && pings > 1 {
 		// the outage lasted long enough in real time for monitor pings to fail: they feed go-zero's
 		// circuit breaker, which is outside the model - run the case again
 		out.Disturbed = true
